@@ -228,6 +228,17 @@ func (s *CeremonySim) Step(dt time.Duration) *BlockResult {
 			}
 		}
 	}
+	if s.Debug {
+		pn := "-"
+		if res.Proposer != nil {
+			pn = res.Proposer.Name
+		}
+		pools := ""
+		for _, r := range w.Replicas[:4] {
+			pools += fmt.Sprintf(" %s:%d", r.Name, len(r.TxPool.VerifAll()))
+		}
+		fmt.Printf("DBG b%d h%d %s by %s txs=%d (%s) pools after:%s\n", s.blockNo, b.Height(), BlockKind(b), pn, len(b.Body.Transactions), TxTypesOf(b), pools)
+	}
 	if s.OnStep != nil {
 		s.OnStep(res)
 	}
